@@ -222,6 +222,19 @@ def run(ctx):
             if not compare_matrix(res, c, "LocalConcurrences(%s) matrix" % engine, lcres["start"], model):
                 continue
             res.hit("lc_matrix_compared")
+            sp, sq = lcres.get("store_plain"), lcres.get("store_progress")
+            if sp is not None and sq is not None:
+                res.hit("store_history_with_progress_callable")
+                if sp != sq:
+                    res.violations.append({"clause": "kbest_matches_store gives the same matches with and without a progress "
+                                                     "callable", "engine": engine, "case": c, "plain": sp, "with_progress": sq})
+                for nm_, hist_ in (("plain", sp), ("with progress callable", sq)):
+                    first = {tuple(x) for m_ in hist_[0] for x in m_}
+                    later = [tuple(x) for m_ in hist_[1] for x in m_]
+                    if any(x in first for x in later):
+                        res.violations.append({"clause": "a search continued without restart never reuses a cell of an earlier "
+                                                         "match (kbest_matches_store, %s)" % nm_, "engine": engine, "case": c,
+                                               "first_call": hist_[0], "second_call": hist_[1]})
             if lcres.get("positivized_equals_start") is False:
                 res.violations.append({"clause": "the positivized view of the matrix (marks of earlier matches removed) is "
                                                  "the matrix of the recurrence: excluded cells stay excluded", "engine": engine,
